@@ -320,12 +320,24 @@ def verify_function(eng, ceval, fname, variant="", overrides=None, args=None, se
     if c is not None and c.assigns is not None:
         lvs = []
         for a in c.assigns:
-            lvs.extend(ceval.ev.lvalues(a, env, pre))
+            try:
+                lvs.extend(ceval.ev.lvalues(a, env, pre))
+            except SpecError as ex:
+                if "no field" not in str(ex):
+                    raise   # a location that does not exist cannot be assigned: the clause is simply not needed
     for oi, (s, v) in enumerate(outs):
         env2 = ceval.result_env(env, f, v)
         if c is not None:
             for i, en in enumerate(c.ensures):
-                cond = ceval.holds(en, env2, s, pre)
+                try:
+                    cond = ceval.holds(en, env2, s, pre)
+                except SpecError as ex:
+                    if "no field" not in str(ex):
+                        raise
+                    # the clause speaks about state the code does not have (any more): it cannot hold
+                    eng.oblige(s.fork(), "ensures", "%s" % (en.label or i), z3.BoolVal(True),
+                               {"clause": en.text, "detail": "contract clause cannot be evaluated on this tree: %s" % ex})
+                    continue
                 eng.oblige(s.fork(), "ensures", "%s" % (en.label or i), z3.Not(cond), {"clause": en.text, "result": v})
         if lvs is not None and check_frame:
             frame_obligations(eng, ceval, pre, s.fork(), lvs, "", names=w.objname)
